@@ -100,10 +100,10 @@ RT = [RU("cap_unit", depth=6), RU("cap_weight", weights=(0, 1, 2, 5), depth=5), 
       RS("cap1", nkeys=3, depth=6)]
 VQ = [("unsync-small", 120, 40), ("unsync-mid", 30, 120), ("sync-small", 120, 40), ("sync-mid", 30, 120),
       ("sync-eager", 40, 60), ("sync-far", 150, 16), ("sync-burst", 250, 3), ("sync-grow", 100, 2),
-      ("unsync-batch", 6, 0), ("sync-batch", 2, 0)]
+      ("unsync-batch", 16, 0), ("sync-batch", 2, 0), ("unsync-exp", 200, 30), ("sync-exp", 120, 30)]
 VT = [("unsync-small", 2000, 60), ("unsync-mid", 400, 400), ("sync-small", 2000, 60), ("sync-mid", 400, 400),
       ("sync-eager", 600, 120), ("sync-far", 6000, 20), ("sync-burst", 7000, 4), ("sync-grow", 1200, 2),
-      ("unsync-batch", 60, 0), ("sync-batch", 12, 0)]
+      ("unsync-batch", 120, 0), ("sync-batch", 12, 0), ("unsync-exp", 4000, 40), ("sync-exp", 2000, 40)]
 
 QSLICES = {
     "C01": ["cap2", "expiry2", "cap_const2", "s_cap1", "s_ttl_tti"],
@@ -1085,6 +1085,29 @@ def run_c17(ctx):
     ctx.mc_exhaustive_note = "the configuration space of C17 is enumerated completely"
 
 
+def stage_asan(ctx):
+    """C08 thorough: the conformance executions again under AddressSanitizer. A sanitizer report
+    aborts the child process; the behaviour that was running becomes a Crash event."""
+    V.build_harness_asan()
+    V.CURRENT_BIN[0] = V.ASAN_BIN
+    try:
+        stage_v(ctx, [("unsync-small", 400, 60), ("unsync-mid", 80, 300), ("sync-small", 400, 60), ("sync-mid", 80, 300),
+                      ("sync-burst", 120, 3), ("sync-grow", 60, 2), ("unsync-batch", 6, 0)])
+        stage_conc_s(ctx, ["rej", "grow", "ixi"], 150, 400)
+        name = "dq_asan"
+        trace = os.path.join(ctx.wd, name + ".trace.ndjson")
+        hr = V.harness(["deque", "random", str(ctx.seed + 7), "300", "200", "40", trace], timeout=1800)
+        if hr.returncode != 0:
+            with open(trace, "a") as f:
+                f.write(json.dumps({"ev": "Crash", "rc": hr.returncode, "stderr": hr.stderr[-300:]}) + "\n")
+        st, viol, drift = generic_trace_check(ctx, "TraceDeque.tla", name, trace, {"MaxAlloc": 40})
+        ctx.events += st["events"]
+        deque_verdict(ctx, name, trace, viol, drift)
+        ctx.notes.append("thorough: conformance executions repeated under AddressSanitizer (nightly toolchain)")
+    finally:
+        V.CURRENT_BIN[0] = V.HBIN
+
+
 def run_property(prop, tier, seed):
     V.build_harness()
     ctx = Ctx(prop, tier, seed)
@@ -1116,6 +1139,8 @@ def run_property(prop, tier, seed):
         stage_conc_light(ctx)
     if prop == "C16":
         stage_iter(ctx)
+    if prop == "C08" and tier == "thorough":
+        stage_asan(ctx)
     stage_findings(ctx)
     return finish(ctx)
 
